@@ -2,7 +2,7 @@
 import mdibcheck
 import mdibgen
 
-FILES = ('70041_MDIB_Final.xml',)
+FILES = ('70041_MDIB_Final.xml', 'mdib_two_mds.xml')
 
 
 def run(ctx):
@@ -10,7 +10,8 @@ def run(ctx):
         ctx.broken('theorem', 'Props/C02.v', ctx.proof_error)
     # stream `versions`: biased to several operations on related objects inside one transaction
     pairs = mdibcheck.run_histories(ctx, 'versions', ctx.n(72, 900), ctx.n(10, 40), consumer=False,
-                                    weights={'state': 4, 'ctx': 2, 'location': 1, 'descr': 6, 'reject': 1, 'abort': 1},
+                                    weights={'state': 4, 'ctx': 2, 'location': 1, 'descr': 6, 'reject': 1, 'abort': 1,
+                                             'delstate': 1},
                                     iface_mix=0.45, mdib_files=FILES)
     nfail = mdibcheck.judge(ctx, 'versions', pairs, [mdibgen.oracle_provider], {'C02'})
     mism = mdibcheck.model_correspondence(ctx, 'versions', pairs, FILES)
@@ -32,12 +33,16 @@ def run(ctx):
             ctx.broken('theorem', 'grep gate', hits)
         ctx.coqchk('SDC.Props.C02')
     return ctx.finish(
-        rule='generated transaction histories (state / context / location / descriptor transactions through the classic '
-             'and the entity interface, several operations on related objects in one transaction in both orders, '
-             'delete + re-create, rejected calls, aborts) on a real ProviderMdib; after every transaction the changed '
-             'entries of the three tables, MdibVersion and the saved versions are compared with the Coq model and judged '
-             'by the oracle (gap-free MdibVersion, no version decrease incl. across delete/re-create, content change => '
-             'version increase, state<->descriptor consistency, parents exist); distinct = distinct implementation traces',
+        rule='crafted scenario histories (several delete / re-create cycles of one descriptor / context state handle with '
+             'updates in between, entities read early and written after other commits on the same object through state, '
+             'context and descriptor transactions, aborted re-creations, root descriptors, context descriptors with several '
+             'states) followed by random tails, plus random transaction histories (state / context / location / descriptor '
+             'transactions through the classic and the entity interface, several operations on related objects in one '
+             'transaction in both orders, delete + re-create, rejected calls, aborts) on a real ProviderMdib (single- and '
+             'two-MDS file); after every transaction the changed entries of the three tables and MdibVersion are compared '
+             'with the Coq model and judged by the oracle (gap-free MdibVersion, no version decrease incl. across '
+             'delete/re-create, content change => version increase, state<->descriptor consistency, parents exist, the '
+             'remembered versions of removed handles are never forgotten, never lower, and equal the version at removal); distinct = distinct implementation traces',
         assumptions=['payloads are opaque tokens (hash of the semantic value without version / association attributes)',
                      'the tutorial role providers\' commit hooks are detached (library semantics only)',
                      'single writer (exclusion of concurrent writers is C04/C07)'],
